@@ -68,11 +68,35 @@ def cases(draw, tier):
                 "log_alg": draw(st.sampled_from(["Lanczos", "Arnoldi"])), "trace_alg": draw(st.sampled_from(["Exact", "Auto", "omitted"])),
                 "fn": draw(st.sampled_from(["slogdet", "logdet"]))}
     g = gen.TraitGen(draw, avoid=AVOID | {"fft", "hh"})
+    if g.integer(1, 12) == 1:
+        # round 6: a product whose factors carry scalar multiples of extreme size that cancel - every factor, the
+        # represented matrix and the log-determinant are ordinary, only products of the scalars alone leave the range
+        g8 = gen.TraitGen(draw, avoid=AVOID | {"fft", "hh"}, dtypes=("f8", "c16"))
+        n = g8.integer(1, 5)
+        e = g8.pick([170, 160, 120])
+        exps = g8.pick([[-e, -e, e, e], [e, e, -e, -e], [-e, -e, -e, e, e, e], [e, -e], [-e, e, -e, e], [e, e, e]])
+        sgn = [g8.pick([1.0, 1.0, -1.0]) for _ in exps]
+        xs = [g8.t_inv(n, g8.pick([0, 0, 1])) for _ in exps]
+        # (the scalar takes the dtype of its operator: 1e+-30 for single-precision kinds such as a default Permutation)
+        exps = [ex if IR.tree_eps(x) < 1e-10 and IR.denote(x).dtype.itemsize >= 8 else (30 if ex > 0 else -30) for ex, x in zip(exps, xs)]
+        ch = [{"k": "scale", "c": {"t": "float", "v": sg * 10.0 ** ex}, "side": g8.pick(["l", "l", "r"]), "ch": [x]}
+              for sg, ex, x in zip(sgn, exps, xs)]
+        return {"mode": "xscal", "tree": {"k": "prod", "via": "op", "ch": ch}, "log_alg": g8.pick(["omitted", "Auto", "LU"]),
+                "trace_alg": "omitted", "fn": g8.pick(["slogdet", "logdet"]), "declare": False, "leaf_scale": 0, "twice": False}
     n = g.integer(1, 8)
     depth = g.pick([0, 1, 1, 2, 2, 3])
     trait = g.pick(["inv", "inv", "pd", "special"])
     if trait == "special":
-        k = g.pick(["perm", "smul", "tri", "kron", "bd", "graded", "graded"])
+        k = g.pick(["perm", "smul", "tri", "kron", "bd", "graded", "graded", "sumdense"])
+        if k == "sumdense":
+            # a sum whose first member is a plain dense leaf: row-dominant matrix + non-negative diagonal / multiple of I
+            dt = g.dtype()
+            a = g.dd_matrix(n, dt, -1, 1)
+            a = a * np.sign(np.diag(a).real + (np.diag(a).real == 0))[:, None]  # positive diagonal, still row dominant
+            second = g.pick([{"k": "diag", "d": gen.enc(g.array((n, ), dt, 0, 3))}, {"k": "smul", "c": {"t": "float", "v": 2.0}, "n": n, "dt": dt},
+                             {"k": "dense", "a": gen.enc(np.diag(np.arange(1, n + 1)).astype(gen.NPDT[dt]))}])
+            tree = {"k": "sum", "via": g.pick(["op", "ctor"]), "ch": [{"k": "dense", "a": gen.enc(a.astype(gen.NPDT[dt]))}, second]}
+            k = "done"
         if k == "graded":
             # Diagonal / Triangular whose diagonal is graded over 16 decades (6 in single precision): nothing vanishes
             dt = g.dtype()
@@ -143,7 +167,7 @@ def cases(draw, tier):
     # (not together with an inverse operand: rows of 1e+60 next to rows of 1e-7 defeat the pivoting of the dense reference)
     lscale = 0 if la in ("Lanczos", "Arnoldi") or "inv" in IR.kinds(tree) else g.pick([0, 0, 0, 0, -1, 1])
     return {"tree": tree, "log_alg": la, "trace_alg": g.pick(TR_ALGS), "declare": g.boolean(), "fn": g.pick(["slogdet", "slogdet", "logdet"]),
-            "leaf_scale": lscale}
+            "leaf_scale": lscale, "twice": g.boolean()}  # twice: the same operator object is evaluated a second time
 
 
 def strategy(tier):
@@ -214,9 +238,23 @@ def check(case, out):
     if case.get("leaf_scale"):
         tree = scale_leaves(tree, case["leaf_scale"])
         out.label("leaf_scale:%+d" % case["leaf_scale"])
-    R = IR.denote(tree)
+    xscal = case.get("mode") == "xscal"
+    if xscal:
+        # reference factor by factor (the dense product of the factors would leave the floating point range)
+        out.label("mode:extreme_scalar_factors")
+        rs_x, rl_x = 1.0 + 0j, 0.0
+        for chd in tree["ch"]:
+            Rc = IR.denote(chd["ch"][0])
+            s1, l1 = np.linalg.slogdet(Rc.M.astype(np.complex128 if Rc.dtype.kind == "c" else np.float64))
+            c = float(chd["c"]["v"])
+            rs_x, rl_x = rs_x * s1 * np.sign(c) ** Rc.shape[0], rl_x + l1 + Rc.shape[0] * np.log(abs(c))
+        R = IR.denote(tree["ch"][0]["ch"][0])
+        if any(IR.denote(chd["ch"][0]).dtype.kind == "c" for chd in tree["ch"]):
+            R = [IR.denote(chd["ch"][0]) for chd in tree["ch"] if IR.denote(chd["ch"][0]).dtype.kind == "c"][0]
+    else:
+        R = IR.denote(tree)
+        out.label(*TP.tree_labels(tree, R))
     n = R.shape[0]
-    out.label(*TP.tree_labels(tree, R))
     out.label("log_alg:" + case["log_alg"], "trace_alg:" + case["trace_alg"], "fn:" + case["fn"])
     A = IR.build(tree)
     # open finding F-C05-scalar: a scalar multiple falsely reporting PSD / SelfAdjoint matters only where that annotation
@@ -233,8 +271,11 @@ def check(case, out):
         if case["declare"] or True:
             A = cola.PSD(A)
     kind = type(A).__name__.split("[")[0]
-    M = R.M.astype(np.complex128 if R.dtype.kind == "c" else np.float64)
-    rs, rl = np.linalg.slogdet(M)
+    if xscal:
+        rs, rl = (rs_x if R.dtype.kind == "c" else rs_x.real), rl_x
+    else:
+        M = R.M.astype(np.complex128 if R.dtype.kind == "c" else np.float64)
+        rs, rl = np.linalg.slogdet(M)
     out.label("det:" + ("<1" if rl < 0 else ">=1"), "sign:" + ("complex" if abs(complex(rs).imag) > 1e-9 else "neg" if complex(rs).real < 0 else "pos"))
     krylov = case["log_alg"] in ("Lanczos", "Arnoldi")
     out.nontrivial = kind not in ("Dense", "LinearOperator") or rl < 0 or abs(complex(rs) - 1) > 1e-9 or krylov
@@ -248,29 +289,37 @@ def check(case, out):
     site = f"{kind}:{case['log_alg']}"
     if kind == "Permutation":
         site += ":odd" if rs < 0 else ":even"
-    try:
-        if case["fn"] == "slogdet":
-            s, l = L.slogdet(A, **kw)
-        else:
-            s, l = None, L.logdet(A, **kw)
-    except Exception as e:
-        if oracle.is_contract_refusal(e):
-            out.refusals += 1
-            out.notes.append("refusal:" + oracle.exc_bucket(e)[1])
+    site0 = site
+    for rep, fn_ in enumerate([case["fn"]] + ([("logdet" if case["fn"] == "slogdet" else "slogdet")] if case.get("twice") else [])):
+        if rep:
+            # the same operator object evaluated once more (through the other entry point): still the determinant
+            out.label("second_call")
+            site = site0 + ":second_call"
+            if out.failures:
+                return
+        try:
+            if fn_ == "slogdet":
+                s, l = L.slogdet(A, **kw)
+            else:
+                s, l = None, L.logdet(A, **kw)
+        except Exception as e:
+            if oracle.is_contract_refusal(e):
+                out.refusals += 1
+                out.notes.append("refusal:" + oracle.exc_bucket(e)[1])
+                return
+            out.fail("call", site, oracle.exc_man(e), e)
             return
-        out.fail("call", site, oracle.exc_man(e), e)
-        return
-    l = complex(np.asarray(l).reshape(-1)[0]) if np.size(l) == 1 else None
-    if l is None or not np.isfinite(l):
-        out.fail("logabs", site, "nonfinite", f"logabs={l}")
-        return
-    if abs(l.imag) > tol * max(1, abs(rl)):
-        out.fail("logabs", site, "complex", f"logabs={l}")
-    if abs(l.real - rl) > tol * max(1.0, abs(rl), n):
-        out.fail("logabs", site, "value", f"logabs={l.real:.10g} expected {rl:.10g} (n={n})")
-    if s is not None:
-        s = complex(np.asarray(s).reshape(-1)[0])
-        if not np.isfinite(s) or abs(s - complex(rs)) > max(tol, 1e-6):
-            out.fail("sign", site, "value", f"sign={s} expected {complex(rs)}")
-        elif R.dtype.kind != "c" and abs(s.imag) > 0:
-            out.fail("sign", site, "complex_for_real", f"sign={s}")
+        l = complex(np.asarray(l).reshape(-1)[0]) if np.size(l) == 1 else None
+        if l is None or not np.isfinite(l):
+            out.fail("logabs", site, "nonfinite", f"logabs={l}")
+            return
+        if abs(l.imag) > tol * max(1, abs(rl)):
+            out.fail("logabs", site, "complex", f"logabs={l}")
+        if abs(l.real - rl) > tol * max(1.0, abs(rl), n):
+            out.fail("logabs", site, "value", f"logabs={l.real:.10g} expected {rl:.10g} (n={n})")
+        if s is not None:
+            s = complex(np.asarray(s).reshape(-1)[0])
+            if not np.isfinite(s) or abs(s - complex(rs)) > max(tol, 1e-6):
+                out.fail("sign", site, "value", f"sign={s} expected {complex(rs)}")
+            elif R.dtype.kind != "c" and abs(s.imag) > 0:
+                out.fail("sign", site, "complex_for_real", f"sign={s}")
